@@ -1,6 +1,7 @@
 import SqlgrepModel.Props.C13
 import SqlgrepModel.Lemmas.ParseStripStmt
 import SqlgrepModel.Lemmas.ParseLift
+import SqlgrepModel.Lemmas.PrHead
 import SqlgrepModel.Props.Pipeline
 /-
 C13 at the level of whole statements (second review, L8). `Props/C13.lean` is about `parse_expression_internal` on a token
@@ -147,11 +148,20 @@ theorem parseTokens_stripped (T : PrecTables) (e₁ e₂ : RExpr) (p w : List To
     simp [optSemi, endSt, D]
   rw [this]
 
-/-- the first token of the printed projection is not `DISTINCT` (it never is for an expression; kept as a decidable
-hypothesis instead of an induction over the printer) -/
+/-- the first token of the printed projection is not `DISTINCT` (hypothesis of the theorems below; it holds for every
+expression: `notDistinctFirst_minimal`, `notDistinctFirst_full`, and the `_all` theorems have it discharged) -/
 def NotDistinctFirst (p : List Tok) : Prop := p.head? ≠ some (.kw .distinct)
 
 instance (p : List Tok) : Decidable (NotDistinctFirst p) := by unfold NotDistinctFirst; infer_instance
+
+/-- … and it never is: no printed expression begins with `DISTINCT` (`Lemmas/PrHead.lean`) -/
+theorem notDistinctFirst_minimal (e : RExpr) : NotDistinctFirst (RExpr.minimal e) := by
+  obtain ⟨t, r, h, ht⟩ := RExpr.minimal_goodHead e
+  unfold NotDistinctFirst; rw [h]; simpa using ht
+
+theorem notDistinctFirst_full (e : RExpr) : NotDistinctFirst (RExpr.full e) := by
+  obtain ⟨t, r, h, ht⟩ := RExpr.full_goodHead e
+  unfold NotDistinctFirst; rw [h]; simpa using ht
 
 theorem cur_tok_of_notDistinctFirst (p : List Tok) (s : PSt) (h : NotDistinctFirst p) (hs : s.cur.tok ≠ .kw .distinct) :
     (pushAll p s).cur.tok ≠ .kw .distinct := by
@@ -271,6 +281,26 @@ theorem select_where_same_output (F : Pipeline.Facts) (defs text₁ text₂ : Li
     Pipeline.runText F defs text₁ fmt single files = Pipeline.runText F defs text₂ fmt single files :=
   Props.Pipeline.runText_depends_on_statements F defs defs text₁ text₂ fmt single files d q hc₁ ⟨hc₁.1, hc₂⟩ hd hd hp hq
     ((select_where_same_text _ _ e₁ e₂ hwf₁ hwf₂ tbl hd₁ hd₂ text₁ text₂ toks₁ toks₂ ht₁ ht₂ h₁ h₂ q).1 hq)
+
+/-- **C13 for whole statements, without side condition**: `select_where_minimal_parens` for EVERY pair of well-formed expressions —
+the `DISTINCT` hypothesis is discharged (`notDistinctFirst_minimal`, `notDistinctFirst_full`) -/
+theorem select_where_minimal_parens_all (e₁ e₂ : RExpr) (hwf₁ : RExpr.WF specTables e₁) (hwf₂ : RExpr.WF specTables e₂)
+    (tbl : List Char) (toks₁ toks₂ : List PTok)
+    (h₁ : toks₁.map (·.tok) = selectWhere (RExpr.minimal e₁) tbl (RExpr.minimal e₂))
+    (h₂ : toks₂.map (·.tok) = selectWhere (RExpr.full e₁) tbl (RExpr.full e₂)) :
+    ∃ op₁ op₂, parseTokens PrecTables.code toks₁ = .tree op₁ ∧ parseTokens PrecTables.code toks₂ = .tree op₂ ∧
+      op₁.eraseLoc = selectTree e₁ tbl e₂ ∧ op₂.eraseLoc = selectTree e₁ tbl e₂ :=
+  select_where_minimal_parens e₁ e₂ hwf₁ hwf₂ tbl (notDistinctFirst_minimal e₁) (notDistinctFirst_full e₁) toks₁ toks₂ h₁ h₂
+
+/-- … and the text-level statement without side condition -/
+theorem select_where_same_text_all (lo : Lex.Oracles) (rv : List Char → Bool) (e₁ e₂ : RExpr) (hwf₁ : RExpr.WF specTables e₁)
+    (hwf₂ : RExpr.WF specTables e₂) (tbl : List Char) (text₁ text₂ : List Char) (toks₁ toks₂ : List PTok)
+    (ht₁ : Lex.tokenize lo text₁ = .ok toks₁) (ht₂ : Lex.tokenize lo text₂ = .ok toks₂)
+    (h₁ : toks₁.map (·.tok) = selectWhere (RExpr.minimal e₁) tbl (RExpr.minimal e₂))
+    (h₂ : toks₂.map (·.tok) = selectWhere (RExpr.full e₁) tbl (RExpr.full e₂)) (s : LStmt) :
+    Pipeline.parseText lo rv text₁ = .stmt s ↔ Pipeline.parseText lo rv text₂ = .stmt s :=
+  select_where_same_text lo rv e₁ e₂ hwf₁ hwf₂ tbl (notDistinctFirst_minimal e₁) (notDistinctFirst_full e₁) text₁ text₂ toks₁ toks₂
+    ht₁ ht₂ h₁ h₂ s
 
 /-! ### non-vacuity: `SELECT a OR b AND c FROM t WHERE NOT x = y` -/
 
